@@ -3,15 +3,16 @@
 set -u
 P=$1; RX=$2; PKG=$3; shift 3
 export GOFLAGS=-mod=mod GOPROXY=off GOSUMDB=off GOTOOLCHAIN=local
-W=/tmp/wt-$P
+W=${WT:-/tmp/wt-$P}
+D=${OUT:-$P}
 cd $W || exit 2
 echo "== build with change"; go build ./... || exit 2
-echo "== demo with change (must FAIL)"; go test -count=1 -run "$RX" $PKG > /tmp/seed-$P-with.log 2>&1; echo "rc=$?"
+echo "== demo with change (must FAIL)"; go test -count=1 -run "$RX" $PKG > /tmp/seed-$D-with.log 2>&1; echo "rc=$?"
 echo "== existing tests with change (must pass)"; go test -count=1 -skip "$RX" ./internal/pfcp/ ./internal/report/ ./internal/gtpv1/ ./internal/forwarder/perio/ 2>&1 | tail -4
 git apply -R SEED/patch.diff || { echo "cannot revert the change in the worktree"; exit 2; }
-echo "== demo without change (must PASS)"; go test -count=1 -run "$RX" $PKG > /tmp/seed-$P-without.log 2>&1; echo "rc=$?"
+echo "== demo without change (must PASS)"; go test -count=1 -run "$RX" $PKG > /tmp/seed-$D-without.log 2>&1; echo "rc=$?"
 git apply SEED/patch.diff
-mkdir -p /verif/seeded/$P && cp SEED/patch.diff SEED/notes.txt /verif/seeded/$P/ && cp SEED/*_test.go /verif/seeded/$P/demo_test.go.txt
-cd /repo && git apply /verif/seeded/$P/patch.diff || { echo "patch does not apply to /repo"; exit 2; }
-for c in "$@"; do (cd /verif && ./check $c > /tmp/seed-$P-$c.log 2>&1; echo "check $c rc=$? $(grep -c ^VIOLATION /tmp/seed-$P-$c.log) violations"); done
+mkdir -p /verif/seeded/$D && cp SEED/patch.diff SEED/notes.txt /verif/seeded/$D/ && cp SEED/*_test.go /verif/seeded/$D/demo_test.go.txt
+cd /repo && git apply /verif/seeded/$D/patch.diff || { echo "patch does not apply to /repo"; exit 2; }
+for c in "$@"; do (cd /verif && ./check $c > /tmp/seed-$D-$c.log 2>&1; echo "check $c rc=$? $(grep -c ^VIOLATION /tmp/seed-$D-$c.log) violations"); done
 git -C /repo checkout -- . ; git -C /repo status --short
